@@ -129,6 +129,8 @@ def check_fragments(case) -> Result:
         for m, i in peaks:
             u.setdefault(m, i)
         peaks = list(u.items())
+    if case.get('dark'):
+        peaks = [(m, 0.0) for m, _i in peaks]
     mzs = [p[0] for p in peaks]
     ints = [p[1] for p in peaks]
     tol, typ, mode = case['tol'], case['type'], case['mode']
@@ -143,7 +145,7 @@ def check_fragments(case) -> Result:
         for m, i in c:
             exp_pairs[(id(f), m, i)] += 1
     r.nontrivial = any(len(c) >= 2 for c in per_frag)
-    r.classes = [f'mode={mode}', f'type={typ}'] + (['empty-spectrum'] if not peaks else []) + \
+    r.classes = [f'mode={mode}', f'type={typ}'] + (['empty-spectrum'] if not peaks else []) + (['zero-total-intensity'] if peaks and not any(i for _m, i in peaks) else []) + \
         (['multi-match'] if r.nontrivial else []) + (['no-match'] if not any(per_frag) else [])
 
     if not peaks:
@@ -154,6 +156,13 @@ def check_fragments(case) -> Result:
             return r
         if got:
             r.fail('an empty spectrum gives no matches', 'C17/get_fragment_matches/empty-spectrum-matches', **ctx)
+            return r
+        gv = pt.get_matched_intensity_percentage([], [])
+        if gv != 0:
+            r.fail('matched-intensity fraction of an empty spectrum is 0', 'C17/get_matched_intensity_percentage/empty-spectrum', got=gv, **ctx)
+        gc = pt.get_match_coverage([])
+        if gc != {}:
+            r.fail('no matches cover nothing', 'C17/get_match_coverage/empty', got=gc, **ctx)
         return r
 
     got = pt.get_fragment_matches(list(frags), list(mzs), list(ints), tol, typ, mode)
@@ -266,6 +275,13 @@ def lists_strategy():
             t = draw(st.sampled_from([0.5, 1.0]))
             obs = sorted(obs + [v - t, v + t])[:32]
             typ, tol = 'th', t
+        elif obs and theo and draw(st.integers(0, 3)) == 0:
+            # relative tolerance: peaks a hair inside and a hair outside either bound (the bound itself depends on the order of
+            # the floating-point operations, which the statement does not fix)
+            v = draw(st.sampled_from(theo))
+            typ, tol = 'ppm', draw(st.sampled_from([5.0, 20.0, 1000.0]))
+            off = v * tol / 1e6
+            obs = sorted(obs + [v - off * (1 + 1e-6), v - off * (1 - 1e-6), v + off * (1 - 1e-6), v + off * (1 + 1e-6)])[:34]
         else:
             typ = draw(st.sampled_from(['th', 'ppm']))
             tol = draw(th_tol if typ == 'th' else ppm_tol)
@@ -285,14 +301,14 @@ def fragments_strategy():
         peptide = s[:k + 1] + draw(mods) + s[k + 1:]
         npk = draw(st.integers(0, 12))
         peaks = [[draw(st.integers(0, 40)), draw(st.sampled_from([0.0, 0.0, 0.001, -0.001, 0.01, -0.02, 0.3, 0.5, -0.5])),
-                  draw(st.sampled_from([1.0, 2.0, 5.0, 5.0, 10.0]))] for _ in range(npk)]
+                  draw(st.sampled_from([1.0, 2.0, 5.0, 5.0, 10.0, 0.0]))] for _ in range(npk)]
         noise = [[draw(st.floats(50, 1200, allow_nan=False)), draw(st.sampled_from([1.0, 3.0, 7.0]))]
                  for _ in range(draw(st.integers(0, 4)))]
         typ = draw(st.sampled_from(['th', 'ppm']))
         tol = draw(st.sampled_from([0.0, 0.005, 0.02, 0.5, 1.0])) if typ == 'th' else draw(st.sampled_from([0.0, 5.0, 20.0, 1000.0]))
         return {'peptide': peptide, 'ion_types': draw(st.sampled_from([['b'], ['y'], ['b', 'y'], ['a', 'b', 'y']])),
                 'charges': draw(st.sampled_from([[1], [1, 2], [2]])), 'order': draw(st.permutations(list(range(40)))),
-                'peaks': peaks, 'noise': noise, 'distinct': draw(st.booleans()), 'tol': tol, 'type': typ,
+                'peaks': peaks, 'noise': noise, 'distinct': draw(st.booleans()), 'dark': draw(st.integers(0, 9)) == 4, 'tol': tol, 'type': typ,
                 'mode': draw(st.sampled_from(['all', 'all', 'closest', 'largest']))}
     return strat()
 
